@@ -215,10 +215,20 @@ func vxH_C09_seeks() {
 	opts := &CollectionOptions{}
 	ss := &segmentStack{options: opts, refs: 1}
 	var layers [][]vxEnt
-	if vxChoose(2) == 0 {
+	shape := vxChoose(3)
+	if shape == 0 {
 		ents := vxNewEnts(2, kl, vl, vxOpsSetDel)
 		layers = append(layers, ents)
 		ss.a = append(ss.a, vxSegOf(ents))
+	} else if shape == 2 {
+		// one-op segment over a two-op lower level (heap iterator with a
+		// lower-level cursor that has to follow every restart)
+		llEnts := vxNewEnts(2, kl, vl, vxOpsSet)
+		top := vxNewEnts(1, kl, vl, vxOpsSetDel)
+		ll := &segmentStack{options: opts, refs: 1, a: []Segment{vxSegOf(llEnts)}}
+		ss.a = append(ss.a, vxSegOf(top))
+		ss.lowerLevelSnapshot = NewSnapshotWrapper(ll, nil)
+		layers = append(layers, llEnts, top)
 	} else {
 		for s := 0; s < 2; s++ {
 			ents := vxNewEnts(1, kl, vl, vxOpsSetDel)
@@ -274,6 +284,28 @@ func vxH_C09_seeks() {
 		vxAssert(tag+"-in-range-and-at-or-after", vxAnd(inRange(ck), vxKeyLE(lb, ck)))
 		vxAssert(tag+"-live-with-value", vxAnd(ref.live, vxValIs(v, ref.v)))
 		vxAssert(tag+"-nothing-skipped", vxNoLiveBetween(false, lb, true, ck, func(k vxKey) bool { return vxAnd(inRange(k), vxKeyLE(lb, k)) }, layers...))
+		if tag == "seek2" {
+			// and the iteration continues correctly from there
+			nerr := it.Next()
+			vxAssert("next-err", nerr == nil || nerr == ErrIteratorDone)
+			k2, v2, c2 := it.Current()
+			if c2 == ErrIteratorDone {
+				ok := true
+				for _, ents := range layers {
+					for _, e := range ents {
+						ok = vxAnd(ok, vxImplies(vxAnd(inRange(e.k), vxKeyLess(ck, e.k)), vxNot(vxRefGet(e.k, layers...).live)))
+					}
+				}
+				vxAssert("next-done-means-exhausted", ok)
+			} else {
+				vxAssert("next-current-ok", c2 == nil)
+				nk := vxKeyOf(k2)
+				nref := vxRefGet(nk, layers...)
+				vxAssert("next-after-current", vxKeyLess(ck, nk))
+				vxAssert("next-live-with-value", vxAnd(nref.live, vxValIs(v2, nref.v)))
+				vxAssert("next-nothing-skipped", vxNoLiveBetween(true, ck, true, nk, inRange, layers...))
+			}
+		}
 	}
 	it.Close()
 }
